@@ -137,6 +137,9 @@ def perm_case(sink, seed, idx):
 
 
 def run_shard(sink, tier, seed, shard):
+    # the universe's set-up history (register in three named namespaces and globally, unregister all but one) is itself an input
+    sink.check(not U.HISTORY_ERRORS, 'registry-history/step-failed', 'unregistering a type from one namespace leaves its other registrations alone (set-up history of the universe)', dict(shard=shard),
+               list(U.HISTORY_ERRORS))
     n_trees = harness.scale(16000, 250000, tier)
     n_perm = harness.scale(2400, 40000, tier)
     k = 6 if tier == 'quick' else 8
